@@ -28,6 +28,9 @@ def doc_text(pid, di, outcome, envkind, shell=None):
     mod = ""
     if envkind == "unset":
         mod = "; unset " + " ".join(VARS)
+    elif envkind == "shadow":
+        # not exported: plain shell variables of the same names
+        mod = "; unset " + " ".join(VARS) + "; TMPDIR=/nonexistent-dir TESTDIR=/x TESTFILE=y SCRUT_TEST=stale:0 LANG=de_DE.UTF-8 TZ=CET COLUMNS=7 CDPATH=/ GREP_OPTIONS=-i"
     elif envkind == "overwrite":
         mod = "; export TMPDIR=/nonexistent-dir TESTDIR=/x TESTFILE=y LANG=de_DE.UTF-8 TZ=CET COLUMNS=7 CDPATH=/ GREP_OPTIONS=-i"
     lines = [f"# {ident}t1", "", "```scrut", f"$ {log_cmd(ident + 't1')}{mod}", "```", "",
@@ -235,7 +238,7 @@ def run(prop, tier, replay=None):
         nsingle, nmulti = (70, 30) if tier == "quick" else (len(singles), 400)
         # always: every (mode, outcome) with one document and plain env; then a seeded sample of the rest
         base = [x for x in singles if not x["samename"] and ((len(x["docs"]) == 1 and x["env"] == "plain")
-                                                             or (x["env"] in ("shared", "compat") and x["docs"] in (["pass"], ["pass", "fail"], ["timeout"], ["skip"]))
+                                                             or (x["env"] in ("shared", "compat", "shadow") and x["docs"] in (["pass"], ["pass", "fail"], ["timeout"], ["skip"]))
                                                              or (x["env"] == "shells" and x["docs"] in (["pass", "pass"], ["pass", "fail"])))]
         rest = [x for x in singles if x not in base]
         chosen = base + rnd.sample(rest, max(0, min(len(rest), nsingle - len(base))))
